@@ -1,4 +1,5 @@
 import QipVerif.Lemmas.SpinChainExp
+import QipVerif.Lemmas.ComposeTop
 /-!
 # C06 — noise-free spin-chain pulse compilation reproduces the circuit exactly
 
@@ -21,10 +22,15 @@ coefficient `u` for the time `T` has the propagator `MatExp.evolve (u • c • 
 instruction's channel, embedded in the register, and equals `instrProp` for every instruction.  The theorems
 `…_exp` below are stated with the exponential; the older statements with the closed forms are kept.
 
-What is NOT proved here (see notes/C06.md): that the slice product `run_analytically` computes from the
-concatenated pulses equals the product of the instructions' propagators in time order (C12 + C14 + `exp(A+B) = exp A·exp B`
-for operators on disjoint qubits; compared numerically to 1e-9 on every check), and the routing stage of the
-transpilation theorem (`RouteStageDen`, a named hypothesis, as in C13).
+**Instruction list → pulses → slices → propagator** (`end_to_end_pulses_partial`, `Lemmas/Compose*.lean`): for an instruction
+list with rational durations and coefficients, the propagator that the MODELS of C12 (`Concat.schedule`, `groupPulses`,
+`compileS Gen.concatSrc`) and C14 (`Grid.fullCoeffsV true`, `slices`, `runAnalytically`) compute from it — the product of
+the slice exponentials over the merged grid — times `e^{iφ}` is the circuit's unitary.
+
+What is NOT proved here (see notes/C06.md): the routing stage of the transpilation theorem (`RouteStageDen`, a named
+hypothesis, as in C13); that the floating-point durations / start times of the implementation are the exact rationals of
+the model (the composition theorem is about exact arithmetic; the implementation is compared numerically to 1e-9 on every
+check).
 -/
 namespace QipVerif.C06
 open QipVerif QipVerif.Gen QipVerif.Gen.SC QipVerif.SpinChain QipVerif.Transpile QipVerif.Decomp Matrix QipVerif.MatExp
@@ -384,5 +390,81 @@ example : ∃ A, instrPropExp false 3 ⟨⟨.RX, [1], [], .pi8 4⟩, some ("sx",
   unfold placeL
   rw [dif_pos ⟨rfl, List.nodup_singleton _, by simp⟩]
   exact ⟨_, rfl⟩
+
+/-! ## from the instruction list to the propagator `run_analytically` computes -/
+
+/-- **end_to_end_pulses_partial.**  Under the hypotheses of `end_to_end_exp_partial` (every topology, `N`, circuit of the
+accepted class, parameters, either shape of `transpile`) the compiler returns an instruction list `is` and a phase `φ`
+such that, for
+
+* every rational instruction list `isQ` whose cast is `is` (durations and coefficients are rational numbers — as the
+  floats of the implementation are; no rounding is modelled), all durations positive (`end_to_end_partial`, clause 6);
+* every injective numbering `enc` of the pulse labels (C12's model names labels by numbers);
+* every answer `sch` of the scheduler (`none`: no scheduling, cumulative start times; `some (starts, argsort)`) that
+  C12's model of `_schedule` accepts, with the scheduled instructions `cis`, start times `st` and the channels `groups` that
+  C12's model of the grouping loop of `compile` builds from them;
+* `hvalid` — on every channel the pulses are sorted, do not overlap, and every idle gap is `0` or larger than the
+  `time_tol` of the source (C12's `ValidG`; a gap below the tolerance is C12's recorded resolution limit);
+* `hdisj` — pulses whose control Hamiltonians act on a common qubit do not overlap in time (C11 `timetable_valid`);
+* `hdep` — the start times respect the dependencies (C11 `dep_respected`, as in `end_to_end_exp_partial`);
+
+C12's source-driven model of `compile` returns for every label the closed-form channel `chans`, and — if the distinct
+points of the channel grids are more than `tol` apart (`SepAll`, the hypothesis of C14) — C14's model of `get_full_coeffs`
+returns a merged grid `T` and coefficient rows `rows` such that `e^{iφ}` times the product of the slice exponentials
+`exp(−i·dt_k·Σ_m rows[m][k]·H_m)` that `run_analytically` multiplies up (`Grid.runAnalytically`, no drift, `H_m` the control
+Hamiltonian of label `m` on the register, prefactor `2π` included) **is the circuit's unitary `U`**.
+
+Proof: `C12.compile_source_end_to_end` (closed form of the compiled channels), `C14.fullCoeffs_eq_repaired` (rows = step
+functions on the merged grid), `Compose.channels_sliceProd` (slice product = product of `exp(−i·dur·coeff·H_label)` in
+scheduled order: within a slice the active Hamiltonians act on disjoint qubits and commute, `exp(A+B) = exp A·exp B`,
+`exp(sA)·exp(tA) = exp((s+t)A)`), `instrPropExp_gen`, and the scheduled-order clause of `end_to_end_exp_partial`.
+
+Partial: `hroute`, `hph`, `h2q` as before; exact rational arithmetic; `hvalid`, `hdisj`, `hdep`, `SepAll` are hypotheses about
+the schedule (C11/C12/C14), not derived from the scheduler model. -/
+theorem end_to_end_pulses_partial (circular pre : Bool) (N : ℕ) (ρ : ℕ → ℝ) (P : Params ℝ) (hP : ParamsOK circular N P)
+    (hroute : RouteStageDen N ρ) (gs out : List Gate) (hg : ∀ g ∈ gs, InClass N g)
+    (hph : ∀ g ∈ gs, phOK g = true) (h2q : pre = false → ∀ g ∈ gs, g.qubits.length ≤ 2)
+    (ht : transpileV tables pre (deviceSpec (chainDev circular)) N gs = .ok out)
+    (U : Matrix (St N) (St N) ℂ) (hU : denG N ρ gs = some U) (phase0 old : ℝ) :
+    ∃ (is : List (Instr ℝ)) (φ : ℝ),
+      compile Real.pi (Ang.eval ρ) N P phase0 out = .ok (is, φ) ∧
+      reportedPhase old φ = phaseSum (Ang.eval ρ) out ∧
+      ∀ (isQ : List (Instr Rat)), is = isQ.map castI → (∀ i ∈ isQ, 0 < i.dur) →
+      ∀ (enc : String × Int → ℕ), Function.Injective enc →
+      ∀ (sch : Option (List Rat × List ℕ)) (cis : List Concat.Instr) (st : List Rat)
+        (groups : List (ℕ × List (Rat × Concat.Wave))),
+        Concat.schedule (isQ.map (toC enc)) sch = .ok (cis, st) →
+        Concat.groupPulses (cis.zip st) [] = some groups → groups ≠ [] →
+        (∀ g ∈ groups, Concat.ValidG (Gen.concatSrc.timeTol (groups.map (·.2))) 0 g.2) →
+        PulseDisjoint circular N isQ (schedStarts (isQ.map (toC enc)) sch) →
+        DepRespected is (fun k => (((schedStarts (isQ.map (toC enc)) sch).getD k 0 : ℚ) : ℝ)) →
+        ∀ (tol : Rat), 0 ≤ tol →
+        ∃ chans : List (List Rat × List Rat),
+          Concat.compileS Gen.concatSrc (isQ.map (toC enc)) sch =
+            some (.ok (some ((groups.map (·.1)).zip (chans.map some)))) ∧
+          (Grid.SepAll tol (chans.map (·.1)) → ∃ (T : List Rat) (rows : List (List Rat)),
+            Grid.fullCoeffsV true tol (chans.map fun c => Grid.Chan.arr c.1 c.2) = .ok (T, rows) ∧
+            GateC.phase (reportedPhase old φ) • Grid.ordProdL (Grid.runAnalytically 0
+              ((groups.map (·.1)).map (labelHam circular N enc)) (Grid.slices T rows)) = U) := by
+  obtain ⟨is, φ, ws, h1, h2, _, h4, _, h6⟩ :=
+    end_to_end_exp_partial circular pre N ρ P hP hroute gs out hg hph h2q ht U hU phase0 old
+  refine ⟨is, φ, h1, h4, ?_⟩
+  intro isQ his hpos enc henc sch cis st groups hs hgr hgn hvalid hdisj hdep tol htol
+  subst his
+  obtain ⟨chans, hc, _, hprod⟩ := pulses_product circular N enc henc tol htol isQ ws h2 hpos sch cis st groups hs hgr hgn
+    hvalid hdisj
+  refine ⟨chans, hc, ?_⟩
+  intro hsep
+  obtain ⟨T, rows, hfull, heq⟩ := hprod hsep
+  refine ⟨T, rows, hfull, ?_⟩
+  rw [heq]
+  obtain ⟨hσ, _, hsorted⟩ := schedule_pairs enc isQ sch cis st (fun i hi => (hpos i hi).le) hs
+  apply h6 _ _ _ hdep (by rw [List.length_map]; exact hσ)
+  · exact (List.pairwise_map.mp hsorted).imp (fun h => by simp only; exact_mod_cast h)
+  · intro i hi
+    obtain ⟨j, hj, rfl⟩ := List.mem_map.mp hi
+    have := hpos j hj
+    show (0 : ℝ) < ((j.dur : ℚ) : ℝ)
+    exact_mod_cast this
 
 end QipVerif.C06
